@@ -132,7 +132,8 @@ def log(msg):
     print("[nvcheck] " + msg, file=sys.stderr, flush=True)
 
 
-def runtime_check(res: Result, ws_name, decls, props_to_run, extra_emit=None, features=cratebuild.ALL_FEATURES, parts=16, max_quarantine_frac=0.2, extra_args=None):
+def runtime_check(res: Result, ws_name, decls, props_to_run, extra_emit=None, features=cratebuild.ALL_FEATURES, parts=16, max_quarantine_frac=0.2, extra_args=None,
+                  failure_handler=None):
     """Build the workspace for decls, run monitors for each property in props_to_run; returns
     (reports_by_prop, modules_by_id). Fills res.quarantined / res.inconclusive."""
     modules = []
@@ -162,6 +163,8 @@ def runtime_check(res: Result, ws_name, decls, props_to_run, extra_emit=None, fe
                                                        extra_args=(extra_args or []) + ["--expect-subjects", str(len(modules) - len(quarantined) - len(unspec))])
         log("monitor %s: %d reports, %d failures, %.1fs" % (prop, len(reports), len(failures), dt))
         for f in failures:
+            if failure_handler and failure_handler(res, f, ws, prop, by_id):
+                continue
             res.inconclusive.append("monitor process failed: %s" % json.dumps(f)[:600])
         out[prop] = reports
     return out, by_id
